@@ -202,7 +202,32 @@ def check_property_file(pid, timeout=900):
     src = os.path.join(COQ, "Properties", pid + ".v")
     if not os.path.exists(src):
         return True, [], [], ""
-    rc, out = run(["timeout", str(timeout), "coqc", "-Q", COQ, "RX", src], cwd=COQ)
+    # The output of this compilation (the Print Assumptions lines) is a function of Properties/<pid>.v and of the compiled
+    # files it loads; `make` has just brought Properties/<pid>.vo up to date and rewrites it whenever anything it depends on
+    # changed.  So the output is cached under the pair (contents of the .v, identity of the up-to-date .vo) and recomputed
+    # whenever either differs -- a compile of a large property file costs a minute.
+    vo = src + "o"
+    cache = os.path.join(BUILD, "pa", pid + ".json")
+
+    def key():
+        try:
+            st = os.stat(vo)
+            return hashlib.sha256(open(src, "rb").read()).hexdigest() + ":%d:%d" % (st.st_mtime_ns, st.st_size)
+        except OSError:
+            return None
+    rc, out = None, None
+    try:
+        c = json.load(open(cache))
+        if c.get("key") and c["key"] == key() and c.get("rc") == 0:
+            rc, out = 0, c["out"]
+    except (OSError, ValueError):
+        pass
+    if rc is None:
+        rc, out = run(["timeout", str(timeout), "coqc", "-Q", COQ, "RX", src], cwd=COQ)
+        if rc == 0 and key():
+            os.makedirs(os.path.dirname(cache), exist_ok=True)
+            with open(cache, "w") as f:
+                json.dump({"key": key(), "rc": rc, "out": out}, f)
     problems = []
     if rc != 0:
         problems.append("coqc failed on Properties/%s.v: %s" % (pid, out[-1500:]))
